@@ -28,6 +28,7 @@ func Constructs() []Construct {
 		"a.b(c).d[e]", "x0 + 1*y0 - z0",
 		// boundary spellings and less-travelled forms
 		"größe", "π + a", "0x1F", "1_000", "0b101", "0o17", "1e3", "'\\n'", "`raw\\n`", `"esc\t\"q\""`, "T.m", "(*T).m", "g(T.m, (*T).m)", "struct{ a, b int }{a: 1}", "g(_)", "a.b[i].c(d...)", "f(a)(b)(c)", "*&a", "-(-a)", "!(!a)", "a.(interface{ m() })", "[]struct{ a int }{{1}, {a: 2}}",
+		"max(a, b)", "min(a, 1)", "g(clear, m)", "0x1p-2", "1i", "`@@\\n-a\\n+b\\n ...\\n# c`", "g(func(int) error(f))", "(func())(a)", "a.m", "g(a.m, T.m)", "[2]int{a, b}[i]",
 	)
 	add("stmts",
 		"a = b", "a, b = b, a", "a := b", "a, b := f()", "a += b", "a <<= b", "a++", "a--", "ch <- v",
@@ -42,6 +43,7 @@ func Constructs() []Construct {
 		"if c {\n\t{\n\t\ta()\n\t}\n}", "if c {\n\tvar v int\n}", "for {\n\tvar v, w = 1, 2\n\tconst c = 1\n\ttype T int\n}",
 		"a = b\nc = d", "a := f()\nb(a)\nreturn a",
 		"_ = a", "_, a = f()", "größe := a", "L:\n\tselect {\n\tcase <-ch:\n\t\tbreak L\n\t}", "switch v := a.(type) {\ncase nil:\n\t_ = v\n}", "for {\n\tselect {\n\tdefault:\n\t}\n}", "go func() {\n\tdefer a()\n}()", "if a := f(); a {\n\tgoto L\n}\nL:\n\tb()",
+		"for i := range 10 {\n\ta(i)\n}", "for range 3 {\n}", "for i := range f {\n}", "clear(m)", "L:\n\t{\n\t\ta()\n\t}",
 	)
 	add("decl",
 		"var v int", "var v = 1", "var v int = 1", "var a, b int", "var a, b = 1, 2", "var (\n\ta = 1\n)", "var (\n\ta = 1\n\tb = 2\n)", "var ()",
